@@ -310,6 +310,43 @@ fn call(f: &str, a: &[Value]) -> Value {
                 Err(_) => json!({"ok": false, "bytes": "", "reads": fc.k}),
             }
         }
+        // C15: placeholder workflow through the public API; the manifest grows by an assertion of `a[0]` bytes after the
+        // placeholder was handed out.  -> lengths of the composed placeholder and of the signed result
+        "sign_embeddable_growth_summary" => {
+            let r = call("sign_embeddable_growth", a);
+            if r.get("setup_error").is_some() { return r; }
+            json!({"ok": r["ok"], "same_len": r["ok"].as_bool().unwrap() && r["signed_len"] == r["placeholder_len"]})
+        }
+        "sign_embeddable_growth" => {
+            // the fixture settings minus the time-stamp authority (no network here; the test configuration of the SDK mocks it)
+            let settings: String = std::fs::read_to_string("/repo/sdk/tests/fixtures/test_settings.toml").expect("fixture settings")
+                .lines().filter(|l| !l.trim_start().starts_with("tsa_url")).collect::<Vec<_>>().join("\n");
+            let ctx = c2pa::Context::new().with_settings(c2pa::Settings::new().with_toml(&settings).expect("settings")).expect("context");
+            let def = r#"{"title": "verif", "format": "image/jpeg", "claim_generator_info": [{"name": "verif-native", "version": "0.1"}]}"#.to_string();
+            let mut b = c2pa::Builder::from_context(ctx).with_definition(def.as_str()).expect("definition");
+            b.set_intent(c2pa::BuilderIntent::Create(c2pa::DigitalSourceType::DigitalCapture));
+            let ph = match b.placeholder("image/jpeg") {
+                Ok(p) => p,
+                Err(e) => return json!({"setup_error": e.to_string()}),
+            };
+            let grow = a[0].as_u64().unwrap() as usize;
+            if grow > 0 {
+                if let Err(e) = b.add_assertion("org.contentauth.test", &json!({"blob": "x".repeat(grow)})) {
+                    return json!({"setup_error": e.to_string()});
+                }
+            }
+            let jpeg = std::fs::read("/repo/sdk/tests/fixtures/cloud.jpg").expect("fixture jpeg");
+            if let Err(e) = b.set_data_hash_exclusions(vec![c2pa::HashRange::new(2, ph.len() as u64)]) {
+                return json!({"setup_error": e.to_string()});
+            }
+            if let Err(e) = b.update_hash_from_stream("image/jpeg", &mut std::io::Cursor::new(jpeg)) {
+                return json!({"setup_error": e.to_string()});
+            }
+            match b.sign_embeddable("image/jpeg") {
+                Ok(v) => json!({"ok": true, "placeholder_len": ph.len(), "signed_len": v.len()}),
+                Err(e) => json!({"ok": false, "placeholder_len": ph.len(), "signed_len": 0, "err": e.to_string()}),
+            }
+        }
         "merkle_scenario" => merkle_scenario(a),
         // sync vs async twins of the two resolver wrappers on the same script
         "redirect_chain_both" => {
